@@ -337,7 +337,7 @@ def s8(ctx, rep, clause="S8"):
     if ok:
         m = parity.mode_test(ifs[0].test)
         amin, amax = (ifs[0].body, ifs[0].orelse) if m == "min" else (ifs[0].orelse, ifs[0].body)
-        ok = parity.arms_are_dual(amin, amax)
+        ok = parity.arms_are_dual(amin, amax, oriented=True)
     rep.put(ok, clause, "parity", "RUSHDecider._return_better: min/max arms are a dual pair", rb, ifs[0] if ifs else None, "")
 
 
